@@ -232,7 +232,8 @@ class Array(Base):
         result = func(*array_args, **self._extract_arrays_from_kwargs(kwargs))
 
         unit = None
-        if result.dtype in (int, float):
+        # Any numeric dtype (e.g. float32 or int32, not just the 64-bit ones) carries a unit
+        if np.issubdtype(result.dtype, np.number):
             if func.__name__ in APPLY_OP_TO_UNIT:
                 unit = func(
                     *self._extract_units(args),
